@@ -20,7 +20,8 @@ import (
 //         step-shaped non-increasing count function (M-ref against a linear
 //         scan, M-step on the CountTicks calls);
 //   "lin" one Linear domain + TickOptions: Ticks, CountTicks/TicksAtLevel on
-//         the levels around the chosen one, Nice, Nice∘Nice, Ticks after Nice;
+//         the levels around the chosen one and a few far ones, Nice, Nice∘Nice,
+//         Ticks after Nice;
 //   "log" the same for a Log domain.
 
 type c17Case struct {
@@ -46,7 +47,7 @@ func init() {
 		switch c.Kind {
 		case "fl":
 			var st c17FLStats
-			c17JudgeFL(w, c, &st, nil)
+			c17JudgeFL(w, &c, &st, nil)
 			st.flush(w)
 		case "lin":
 			c17JudgeLin(w, c)
@@ -165,12 +166,14 @@ func c17CallFL(o *scale.TickOptions, t scale.Ticker, guess int) (l int, ok bool,
 	return
 }
 
-func c17JudgeFL(w *mon.W, c c17Case, st *c17FLStats, t *c17StepTicker) {
+// c17JudgeFL takes the case by pointer: it runs hundreds of millions of times.
+func c17JudgeFL(w *mon.W, cp *c17Case, st *c17FLStats, t *c17StepTicker) {
+	c := cp
 	if t == nil {
 		t = &c17StepTicker{vals: c.Vals, brk: c.Brk}
 	}
 	t.calls = 0
-	o := c.opts()
+	o := scale.TickOptions{Max: c.OMax, MinLevel: c.MinLevel, MaxLevel: c.MaxLevel}
 	unlimited := o.MinLevel == 0 && o.MaxLevel == 0
 	span := 2001
 	if !unlimited {
@@ -211,9 +214,9 @@ func c17JudgeFL(w *mon.W, c c17Case, st *c17FLStats, t *c17StepTicker) {
 	}
 	if pan != nil {
 		if b, isB := pan.(c17Budget); isB {
-			w.Violate("findlevel-step-budget", fmt.Sprintf("%v: more than %d CountTicks calls (window of %d levels): the search does not terminate in bounded steps", c, b.budget, span), c)
+			w.Violate("findlevel-step-budget", fmt.Sprintf("%v: more than %d CountTicks calls (window of %d levels): the search does not terminate in bounded steps", c, b.budget, span), *c)
 		} else {
-			w.Violate("findlevel-panic", fmt.Sprintf("%v panicked: %v", c, pan), c)
+			w.Violate("findlevel-panic", fmt.Sprintf("%v panicked: %v", c, pan), *c)
 		}
 		return
 	}
@@ -222,22 +225,22 @@ func c17JudgeFL(w *mon.W, c c17Case, st *c17FLStats, t *c17StepTicker) {
 	}
 	if st.viol++; st.viol > 40 {
 		// the first few of a function carry the full text
-		w.Violate("findlevel-wrong", "further wrong FindLevel results on the same count function", c)
+		w.Violate("findlevel-wrong", "further wrong FindLevel results on the same count function", *c)
 		return
 	}
 	switch {
 	case ok != wantOK:
 		if wantOK {
-			w.Violate("findlevel-false-failure", fmt.Sprintf("%v reported failure, but level %d (count %d) satisfies the constraints", c, wantL, t.count(wantL)), c)
+			w.Violate("findlevel-false-failure", fmt.Sprintf("%v reported failure, but level %d (count %d) satisfies the constraints", c, wantL, t.count(wantL)), *c)
 		} else {
-			w.Violate("findlevel-false-success", fmt.Sprintf("%v returned level %d ok=true, but no level of the window has count <= Max", c, l), c)
+			w.Violate("findlevel-false-success", fmt.Sprintf("%v returned level %d ok=true, but no level of the window has count <= Max", c, l), *c)
 		}
 	case ok && unbounded:
 		if t.count(l) > o.Max {
-			w.Violate("findlevel-level", fmt.Sprintf("%v returned level %d whose count %d exceeds Max", c, l, t.count(l)), c)
+			w.Violate("findlevel-level", fmt.Sprintf("%v returned level %d whose count %d exceeds Max", c, l, t.count(l)), *c)
 		}
 	case ok && l != wantL:
-		w.Violate("findlevel-level", fmt.Sprintf("%v returned level %d (count %d); the lowest feasible level is %d (count %d, count below it %d)", c, l, t.count(l), wantL, t.count(wantL), t.count(wantL-1)), c)
+		w.Violate("findlevel-level", fmt.Sprintf("%v returned level %d (count %d); the lowest feasible level is %d (count %d, count below it %d)", c, l, t.count(l), wantL, t.count(wantL), t.count(wantL-1)), *c)
 	}
 }
 
@@ -298,8 +301,10 @@ func c17Fmt(xs []float64) string {
 
 // c17LinLevel is the reference tick lattice of one level: the indices n of
 // the multiples n*S that must be ticks (mf..ml: inside the domain, or within
-// 4 ulp of an end) and that may be ticks (af..al: within 1e-9 of the width
-// outside an end — the library's own slack is 1e-10 of the width).
+// 4 ulp of an end) and that may be ticks (af..al: within 2e-10 of the width
+// plus 8 ulp of the larger end outside an end — the slack the statement names
+// is 1e-10 of the width; the factor two and the ulps leave room for how an
+// implementation rounds "end -/+ slack" and the division by the spacing).
 type c17LinLevel struct {
 	S              *big.Rat
 	Sf             float64
@@ -317,11 +322,17 @@ func (L *c17LinLevel) mand() int64  { return c17Span(L.mf, L.ml) }
 func (L *c17LinLevel) allow() int64 { return c17Span(L.af, L.al) }
 func (L *c17LinLevel) amb() bool    { return L.mand() != L.allow() }
 
+// c17LinSlack: a multiple of the spacing up to this fraction of the width
+// outside the domain may be a tick, and Nice may move an end inwards by it
+// (twice the 1e-10 the statement's quantifier names as the tolerance).
+const c17LinSlack = 2e-10
+
 type c17LinRef struct {
 	lo, hi, w  float64
 	base       int
 	ulpM       float64
 	m1, m2     float64
+	band       float64 // 1e-9 of the width: outer edge of the hostile band beyond m2 (classes only)
 	cache      map[int]*c17LinLevel
 	incomplete bool // some level could not be indexed with int64
 	mw         *mon.W
@@ -331,7 +342,8 @@ func c17NewLinRef(lo, hi float64, base int) *c17LinRef {
 	R := &c17LinRef{lo: lo, hi: hi, w: hi - lo, base: base, cache: map[int]*c17LinLevel{}}
 	R.ulpM = c17Ulp(math.Max(math.Abs(lo), math.Abs(hi)))
 	R.m1 = 4 * R.ulpM
-	R.m2 = 1e-9 * R.w
+	R.m2 = c17LinSlack*R.w + 8*R.ulpM
+	R.band = 1e-9 * R.w
 	if R.m1 > R.m2/16 {
 		// outside the statement's domain (|centre|/width far above 1e3):
 		// everything near an end is ambiguous
@@ -414,7 +426,7 @@ func (R *c17LinRef) expect(l int) string {
 	}
 	s := fmt.Sprintf("level %d (spacing %v): %d multiples inside the domain %s", l, L.Sf, L.mand(), c17Fmt(xs))
 	if L.amb() {
-		s += fmt.Sprintf(" (+%d within 1e-9 width of an end, optional)", L.allow()-L.mand())
+		s += fmt.Sprintf(" (+%d within %g width of an end, optional)", L.allow()-L.mand(), c17LinSlack)
 	}
 	return s
 }
@@ -447,6 +459,12 @@ func (R *c17LinRef) match(got []float64, l int) string {
 			return fmt.Sprintf("tick[%d]=%v, expected %d*%v=%v (off by %.3g spacings)", i, t, a+int64(i), L.Sf, want, (t-want)/L.Sf)
 		}
 	}
+	return R.matchEnds(got, L, a)
+}
+
+// matchEnds: the index range a..a+len-1 of a tick list against the allowed
+// and mandatory ranges of the level.
+func (R *c17LinRef) matchEnds(got []float64, L *c17LinLevel, a int64) string {
 	b := a + int64(len(got)) - 1
 	if a < L.af {
 		return fmt.Sprintf("first tick %v lies %.3g widths below the domain", got[0], (R.lo-got[0])/R.w)
@@ -512,7 +530,7 @@ func c17LinLaws(w *mon.W, c c17Case, R *c17LinRef, major, minor []float64) bool 
 				return false
 			}
 			if t < R.lo-R.m2 || t > R.hi+R.m2 {
-				bad("ticks-outside-domain", fmt.Sprintf("%s tick %v is outside [%v,%v] by more than 1e-9 of the width", name, t, R.lo, R.hi))
+				bad("ticks-outside-domain", fmt.Sprintf("%s tick %v is outside [%v,%v] by more than %g of the width (%.3g widths)", name, t, R.lo, R.hi, c17LinSlack, math.Max(R.lo-t, t-R.hi)/R.w))
 				break
 			}
 		}
@@ -603,6 +621,20 @@ func c17JudgeLin(w *mon.W, c c17Case) {
 		w.HitIf(L.mand() == int64(c.OMax), "lin-count-equals-max")
 		w.HitIf(c17RatIsMultiple(lo, Lm.S) || c17RatIsMultiple(hi, Lm.S), "lin-tick-exactly-on-end")
 		w.HitIf(amb, "lin-end-within-slack-window")
+		// hostile band: a multiple of the major or minor spacing lies beyond
+		// the allowed slack but within 1e-9 of the width of an end, outside
+		// the domain (it must not be a tick) or inside it (Nice must not
+		// round the end inwards to it)
+		for _, LL := range []*c17LinLevel{L, Lm} {
+			if f, l, ok := ref.LinInside(lo, hi, LL.S, R.band); ok && c17Span(f, l) > LL.allow() {
+				w.Hit("lin-multiple-just-beyond-slack-outside")
+			}
+			f1, l1, ok1 := ref.LinInside(lo, hi, LL.S, -R.m2)
+			f2, l2, ok2 := ref.LinInside(lo, hi, LL.S, -R.band)
+			if ok1 && ok2 && c17Span(f1, l1) > c17Span(f2, l2) {
+				w.Hit("lin-multiple-just-beyond-slack-inside")
+			}
+		}
 	}
 	if amb {
 		w.Ambiguous()
@@ -672,15 +704,90 @@ func c17LinModel(w *mon.W, c c17Case, R *c17LinRef, major, minor []float64, lLo,
 	w.Violate("ticks-minor-wrong", fmt.Sprintf("%v: minor ticks: %s; expected %s; %s", c, R.match(minor, lLo-1), R.expect(lLo-1), lists), c)
 }
 
+// c17FarCount bounds the tick lists requested at the far finer levels.
+const c17FarCount = 100000
+
+// lowestWithin returns the lowest level whose lattice holds at most n ticks
+// (allowed count), starting from a logarithm estimate.
+func (R *c17LinRef) lowestWithin(n int64) (int, bool) {
+	l := 2 * int(math.Ceil(math.Log(R.w/float64(n))/math.Log(R.eb())))
+	for i := 0; i < 16 && R.at(l).ok && R.at(l).allow() > n; i++ {
+		l++
+	}
+	for i := 0; i < 16 && R.at(l-1).ok && R.at(l-1).allow() <= n; i++ {
+		l--
+	}
+	L := R.at(l)
+	return l, L.ok && L.allow() <= n && R.at(l-1).ok && R.at(l-1).allow() > n
+}
+
+// matchLong is match for a long tick list: every tick is compared with its
+// neighbour in float arithmetic (ascending, one spacing apart), the first and
+// last three and 32 evenly spread ones with the exact lattice value, and the
+// two ends with the mandatory and allowed index ranges.
+func (R *c17LinRef) matchLong(got []float64, l int) string {
+	L := R.at(l)
+	if !L.ok || len(got) <= 3000 {
+		return R.match(got, l)
+	}
+	tol := 1e-9*L.Sf + 8*R.ulpM
+	for i, t := range got {
+		if math.IsNaN(t) || math.IsInf(t, 0) {
+			return fmt.Sprintf("tick[%d]=%v", i, t)
+		}
+		if i > 0 && !(math.Abs(t-got[i-1]-L.Sf) <= 2*tol) {
+			return fmt.Sprintf("tick[%d]=%v follows %v: not one spacing %v apart", i, t, got[i-1], L.Sf)
+		}
+	}
+	q := got[0] / L.Sf
+	if !(math.Abs(q) < 1e15) {
+		return fmt.Sprintf("tick %v is not a multiple of %v", got[0], L.Sf)
+	}
+	a := int64(math.Round(q))
+	n := len(got)
+	idx := []int{0, 1, 2, n - 3, n - 2, n - 1}
+	for k := 1; k < 32; k++ {
+		idx = append(idx, int(int64(k)*int64(n-1)/32))
+	}
+	for _, i := range idx {
+		want := ref.LinTick(a+int64(i), L.S)
+		if R.mw != nil {
+			R.mw.Err("linear tick value vs n*spacing", math.Abs(got[i]-want), tol)
+		}
+		if !(math.Abs(got[i]-want) <= tol) {
+			return fmt.Sprintf("tick[%d]=%v, expected %d*%v=%v (off by %.3g spacings)", i, got[i], a+int64(i), L.Sf, want, (got[i]-want)/L.Sf)
+		}
+	}
+	return R.matchEnds(got, L, a)
+}
+
+// c17LinLevels judges CountTicks and TicksAtLevel on the levels around centre
+// and on a few far ones: two finer levels with long tick lists (up to
+// c17FarCount and about 6000 ticks) and three much coarser ones.
 func c17LinLevels(w *mon.W, c c17Case, R *c17LinRef, centre int) {
 	s := scale.Linear{Min: R.lo, Max: R.hi, Base: c.Base}
-	prev, prevAmb, havePrev := 0, false, false
+	var levels []int
+	fine := map[int]bool{}
+	for _, n := range []int64{c17FarCount, 6000} {
+		if l, ok := R.lowestWithin(n); ok && l < centre-3 && !fine[l] {
+			fine[l] = true
+			levels = append(levels, l)
+		}
+	}
 	for l := centre - 3; l <= centre+4; l++ {
+		levels = append(levels, l)
+	}
+	far := len(levels)
+	levels = append(levels, centre+7, centre+19, centre+48)
+	prev, prevL, prevAmb, havePrev := 0, 0, false, false
+	for k, l := range levels {
 		L := R.at(l)
 		if !L.ok {
 			havePrev = false
 			continue
 		}
+		w.HitIf(fine[l] && L.mand() > 4096, "lin-far-fine-level>4096-ticks")
+		w.HitIf(k >= far, "lin-far-coarse-level")
 		var cnt int
 		w.Eval("Linear.CountTicks")
 		if p, v := mon.Call(func() { cnt = s.CountTicks(l) }); p {
@@ -692,11 +799,11 @@ func c17LinLevels(w *mon.W, c c17Case, R *c17LinRef, centre int) {
 			w.Violate("countticks-wrong", fmt.Sprintf("%v: CountTicks(%d)=%d; %s", c, l, cnt, R.expect(l)), c)
 		}
 		if havePrev && cnt > prev && !prevAmb && !L.amb() {
-			w.Violate("countticks-increasing", fmt.Sprintf("%v: CountTicks(%d)=%d > CountTicks(%d)=%d", c, l, cnt, l-1, prev), c)
+			w.Violate("countticks-increasing", fmt.Sprintf("%v: CountTicks(%d)=%d > CountTicks(%d)=%d", c, l, cnt, prevL, prev), c)
 		}
-		prev, prevAmb, havePrev = cnt, L.amb(), true
-		if L.allow() > 3000 {
-			continue
+		prev, prevL, prevAmb, havePrev = cnt, l, L.amb(), true
+		if L.allow() > c17FarCount {
+			continue // cannot happen: the levels above are chosen within the bound
 		}
 		var ts []float64
 		w.Eval("Linear.TicksAtLevel")
@@ -707,7 +814,7 @@ func c17LinLevels(w *mon.W, c c17Case, R *c17LinRef, centre int) {
 		if len(ts) != cnt {
 			w.Violate("count-ne-len", fmt.Sprintf("%v: CountTicks(%d)=%d but len(TicksAtLevel(%d))=%d", c, l, cnt, l, len(ts)), c)
 		}
-		if why := R.match(ts, l); why != "" {
+		if why := R.matchLong(ts, l); why != "" {
 			w.Violate("ticksatlevel-wrong", fmt.Sprintf("%v: TicksAtLevel(%d)=%s: %s; expected %s", c, l, c17Fmt(ts), why, R.expect(l)), c)
 		}
 	}
@@ -1076,10 +1183,19 @@ func c17LogLaws(w *mon.W, c c17Case, R *c17LogRef, major, minor []float64) bool 
 			}
 		}
 	}
+	// every major tick is also a minor tick. A major tick inside the closed
+	// domain (lo <= |M| <= hi as float64s) is never excused, the ends
+	// included; one strictly outside it (admitted by the slack) is. Only
+	// where rounding of the logarithms exceeds the slack (narrow domain far
+	// from 1) are the ticks within the tolerance of an end excused as well:
+	// there the levels of the library disagree about an end tick.
 	mj, mn := c17Mags(major, R.neg), c17Mags(minor, R.neg)
 	j := 0
 	for _, M := range mj {
-		if M <= R.lo*(1+R.rho) || M >= R.hi*(1-R.rho) {
+		if M < R.lo || M > R.hi {
+			continue
+		}
+		if !R.slackDom && (M <= R.lo*(1+R.rho) || M >= R.hi*(1-R.rho)) {
 			continue
 		}
 		for j < len(mn) && mn[j] < M*(1-1e-9) {
@@ -1154,6 +1270,10 @@ func c17JudgeLog(w *mon.W, c c17Case) {
 		w.HitIf(amb, "log-end-within-slack-window")
 		pl, ph := R.ulof/L.E, R.uhif/L.E
 		w.HitIf(math.Abs(pl-math.Round(pl)) < 1e-12 || math.Abs(ph-math.Round(ph)) < 1e-12, "log-tick-on-end")
+		// a power of the level's effective base is an end of the closed
+		// domain bit for bit: that major tick must be among the minor ticks
+		bf := float64(c.Base)
+		w.HitIf(R.slackDom && (math.Pow(bf, L.E*math.Round(pl)) == lo || math.Pow(bf, L.E*math.Round(ph)) == hi), "log-major-power-bitwise-on-end")
 	}
 	if amb {
 		w.Ambiguous()
@@ -1178,17 +1298,16 @@ func c17JudgeLog(w *mon.W, c c17Case) {
 		w.Sample(map[string]any{"case": c.String(), "major": mon.Fs(major), "minor_len": len(minor), "ref_level": lLo, "ref_feasible": hasLo})
 	}
 
-	// ---- CountTicks / TicksAtLevel, levels 0 .. chosen+3
+	// ---- CountTicks / TicksAtLevel, every level from 0 to the last one
+	// whose effective base is finite (far coarser than the chosen one)
 	top := R.lcap
-	if hasLo && lLo+3 < top {
-		top = lLo + 3
-	}
 	prev, prevAmb, havePrev := 0, false, false
 	for l := 0; l <= top; l++ {
 		L := R.at(l)
 		if !L.ok {
 			break
 		}
+		w.HitIf(hasLo && l > lLo+3, "log-far-coarse-level")
 		var cnt int
 		w.Eval("Log.CountTicks")
 		if p, v := mon.Call(func() { cnt = lg.CountTicks(l) }); p {
@@ -1443,16 +1562,19 @@ func c17InLogDomain(lo, hi float64) bool {
 }
 
 func c17Run(r *mon.Run) {
-	r.Rule("FindLevel: every non-increasing step count function with <=3 steps on levels -6..6 (thorough -8..8) x Max x every (MinLevel,MaxLevel) window incl. (0,0)=unlimited and inverted ones x every guess, judged against a linear scan, CountTicks calls budgeted. Linear/Log: random, snapped-to-tick, near-slack and fixed domains x bases x Max 1..20 x level limits; each case judges Ticks (laws + lattice model with a 1e-9-width ambiguity window at the ends), CountTicks/TicksAtLevel around the chosen level, Nice, Nice twice and Ticks after Nice. Non-trivial = hits a class; distinct by hash of the case.")
+	r.Rule("FindLevel: every non-increasing step count function with <=3 steps on levels -6..6 (thorough -8..8) x Max x every (MinLevel,MaxLevel) window incl. (0,0)=unlimited and inverted ones x every guess, judged against a linear scan, CountTicks calls budgeted. Linear/Log: random, snapped-to-tick, near-slack and fixed domains x bases x Max 1..20 x level limits; each case judges Ticks (laws + lattice model; Linear: a multiple of the spacing up to 2e-10 of the width + 8 ulp outside an end is optional, Log: 1e-9 of the log-width), CountTicks/TicksAtLevel around the chosen level and on far levels (Linear: two finer levels with up to 100000 and ~6000 ticks, long lists judged pairwise + first/last/32 sampled exact values, three far coarser levels; Log: every level up to the last finite effective base), Nice, Nice twice and Ticks after Nice. Non-trivial = hits a class; distinct by hash of the case.")
 	r.Assume("Linear laws on the statement's domain: width 1e-9..1e9, |centre|/width <= 1e3; Log domains within 1e-100..1e100",
-		"a multiple of the spacing within 4 ulp of a domain end counts as inside (the repo's own tests pin the end ticks); within 1e-9 of the width outside it is optional",
+		"a multiple of the spacing within 4 ulp of a domain end counts as inside (the repo's own tests pin the end ticks); within 2e-10 of the width + 8 ulp outside it is optional (the statement names the library's 1e-10 slack as the tolerance), and Nice may move an end inwards by at most that",
+		"Log: a major tick inside the closed domain [Min,Max] as float64s (ends included) must be among the minor ticks to 1e-9 relative; one strictly outside (admitted by the slack) is excused, and so are ticks within the tolerance of an end where rounding of the logarithm exceeds the 1e-10 slack (narrow domain far from 1: there the unchanged library's levels disagree about an end tick, e.g. base 3 [3^e(1-1e-5), 3^e] with MinLevel 1)",
 		"Log levels below 0 have no major ticks (CountTicks = MaxInt there by design): CountTicks==len(TicksAtLevel) is asserted for levels >= 0 only; Log level limits stay where Base^(2^level) is finite",
 		"FindLevel with no level limit and every level feasible has no lowest level: any feasible level is accepted")
 	r.Gate("lin-max<=2-straddling-0", "log-max<=2-straddling-1", "level-limits-binding", "fl-unsatisfiable", "log-negative-domain",
 		"lin-limits-unsatisfiable", "lin-minlevel-binding", "log-limits-unsatisfiable", "log-minlevel-binding",
 		"lin-reversed-domain", "lin-tick-exactly-on-end", "log-tick-on-end", "lin-5x-level", "lin-negative-odd-level",
 		"log-level>=1", "log-minor-level--1", "lin-nice-max>=3", "log-nice-max>=3", "lin-centre-0", "fl-minlevel-binding",
-		"fl-guess-outside-window", "fl-guess-above-answer", "fl-guess-below-answer")
+		"fl-guess-outside-window", "fl-guess-above-answer", "fl-guess-below-answer",
+		"lin-multiple-just-beyond-slack-outside", "lin-multiple-just-beyond-slack-inside", "lin-far-fine-level>4096-ticks",
+		"lin-far-coarse-level", "log-far-coarse-level", "log-major-power-bitwise-on-end")
 	if err := ref.C17SelfTest(); err != nil {
 		r.Inconclusive("reference self-test failed: " + err.Error())
 		return
@@ -1483,12 +1605,12 @@ func c17Run(r *mon.Run) {
 						continue // that pair means unlimited, done once
 					}
 					for c.Guess = -gl; c.Guess <= gl; c.Guess++ {
-						c17JudgeFL(w, c, &st, tk)
+						c17JudgeFL(w, &c, &st, tk)
 					}
 					if mn == gl+1 || (mn+mx+i)%37 == 0 {
 						for _, g := range extreme {
 							c.Guess = g
-							c17JudgeFL(w, c, &st, tk)
+							c17JudgeFL(w, &c, &st, tk)
 						}
 					}
 				}
@@ -1587,7 +1709,8 @@ func c17Run(r *mon.Run) {
 		}
 		if i%3 != 0 {
 			wd := hi - lo
-			offs := []float64{0, 0, 3e-9, -3e-9, 1e-8, -1e-8, 2e-10, -2e-10, 5e-11, -5e-11, 1e-12, -1e-12, 1e-13, -1e-13, 1e-3, -1e-3}
+			offs := []float64{0, 0, 3e-9, -3e-9, 1e-8, -1e-8, 2e-10, -2e-10, 5e-11, -5e-11, 1e-12, -1e-12, 1e-13, -1e-13, 1e-3, -1e-3,
+				1.5e-10, -1.5e-10, 3e-10, -3e-10, 4e-10, -4e-10, 7e-10, -7e-10}
 			lo += offs[rng.Intn(len(offs))] * wd
 			hi += offs[rng.Intn(len(offs))] * wd
 			w.Note("lin-near-slack-offsets")
